@@ -1723,3 +1723,127 @@ def r_noleak(ctx):
                         res.fail(path, "field-suppresses-drop:" + fl["name"], "field `%s` keeps a storage owner (%s) inside %s: its destructor never runs"
                                  % (fl["name"], inner[0].get("s"), t["path"].split("::")[-1]))
     return res
+
+
+# ------------------------------------------------------------------------------------------------ R-HANDLELIFE
+
+def r_handlelife(ctx):
+    """An element handle that destroys its element IN PLACE (through the slot address it stores) must not be able to outlive a handle whose destructor
+    RELOCATES slots of the same vector: after the relocation the address names another element (destroyed twice) and the original is overwritten (never
+    destroyed). The items of an `Iterator` can never borrow from the iterator itself, so a public operation whose result is an iterator with a relocating
+    destructor (its own Drop impl or that of a field / type argument) and whose Item is such an in-place owner hands out exactly that combination."""
+    res = RuleResult("R-HANDLELIFE")
+    fx = ctx.fx
+    relocating, inplace = {}, {}
+    for im in fx.impls_of("core::ops::Drop"):
+        st = im["self_ty"]
+        if st.get("k") != "adt" or st["path"] not in fx.adts:
+            continue
+        for it in im["items"]:
+            for tt, I in ctx.arms(it["path"]) or []:
+                cp = [e for e in I.all_effects(("COPY",))]
+                if cp:
+                    relocating[st["path"]] = (it["path"], cp[0])
+                ds = [e for e in I.all_effects(("DESTROY",))]
+                if ds:
+                    inplace[st["path"]] = (it["path"], ds[0])
+
+    def mentions(t, depth=0, seen=None):
+        """a relocating ADT inside the type: itself, a type argument, or a field (by value)"""
+        seen = seen if seen is not None else set()
+        if depth > 6:
+            return None
+        k = t.get("k")
+        if k == "adt":
+            if t["path"] in relocating:
+                return t["path"]
+            for a in t.get("args", []):
+                if a.get("k") not in (None, "region"):
+                    r = mentions(a, depth + 1, seen)
+                    if r:
+                        return r
+            a = fx.adts.get(t["path"])
+            if a and t["path"] not in seen:
+                seen.add(t["path"])
+                for v in a["variants"]:
+                    for f in v["fields"]:
+                        r = mentions(f["ty"], depth + 1, seen)
+                        if r:
+                            return r
+        if k == "tuple":
+            for e in t.get("elems", []):
+                r = mentions(e, depth + 1, seen)
+                if r:
+                    return r
+        return None
+
+    n = 0
+    for f in fx.fn_list:
+        item = f.get("output_iter_item")
+        if item is None or not ctx.is_public(f) or fx.fn(f["path"]) is not f:
+            continue
+        n += 1
+        out = f["sig"]["output"]
+        rel = mentions(out)
+        owner = item.get("path") if item.get("k") == "adt" and item.get("path") in inplace else None
+        res.inst(sample={"operation": f["path"], "returns": out["s"], "iterator_item": item["s"], "destructor_relocates_slots": rel, "item_destroys_in_place": bool(owner)},
+                 func=f["path"])
+        if rel and owner:
+            res.fail(f["path"], "item-outlives-relocating-iterator",
+                     "%s returns an iterator whose destructor (%s) moves elements to other slots, while its items (%s) destroy their element in place through the "
+                     "slot address they keep (%s): an item can outlive the iterator (Iterator::Item cannot borrow from it), and then destroys whatever was moved "
+                     "into its slot - that element is destroyed twice and the item's own element never"
+                     % (f["path"], relocating[rel][0], item["s"], inplace[owner][0]), span=ctx.span_of(f["path"]))
+        else:
+            res.ok()
+    # (b) a NON-owning wrapper around an in-place owner (`ManuallyDrop<owner>`: references to live elements) must not lend the owner out by `&mut`
+    # when owned values of the same type can be obtained elsewhere (iterator items, returned handles): `mem::swap` then exchanges the two - the owned
+    # handle now names the live element (destroyed while still in its vector, and again with it), the wrapper swallows the owned one (never destroyed)
+    obtainable = {}
+    for f in fx.fn_list:
+        if not ctx.is_public(f) or f.get("unsafe") or fx.fn(f["path"]) is not f:
+            continue
+        cands = [f.get("output_iter_item"), f["sig"]["output"]] if "sig" in f else []
+        for t in cands:
+            while t is not None and t.get("k") == "adt" and t["path"] == "core::option::Option":
+                t = next((a for a in t.get("args", []) if a.get("k") != "region"), None)
+            if t is not None and t.get("k") == "adt" and t["path"] in inplace:
+                obtainable.setdefault(t["path"], f["path"])
+
+    def deref_target(w):
+        for im in fx.impls_of("core::ops::Deref"):
+            if im["self_ty"].get("path") == w:
+                for it in im["items"]:
+                    if it["name"] == "Target" and "ty" in it:
+                        return it["ty"]
+        return None
+    for f in fx.fn_list:
+        if f.get("kind") != "AssocFn" or f.get("self_kind") != "mut" or f.get("unsafe") or not ctx.is_public(f) or fx.fn(f["path"]) is not f:
+            continue
+        out = f["sig"]["output"]
+        if out.get("k") != "ref" or not out.get("mut"):
+            continue
+        w = f.get("impl_self_ty", {})
+        if w.get("k") != "adt" or w["path"] not in fx.adts:
+            continue
+        to = out["to"]
+        if to.get("k") == "alias" and to.get("path") == "core::ops::Deref::Target":
+            to = deref_target(w["path"]) or to
+        if to.get("k") != "adt" or to["path"] not in inplace:
+            continue
+        wraps = any(fl["ty"].get("k") == "adt" and fl["ty"]["path"] == "core::mem::ManuallyDrop"
+                    and any(a.get("k") == "adt" and a["path"] == to["path"] for a in fl["ty"].get("args", []))
+                    for v in fx.adts[w["path"]]["variants"] for fl in v["fields"])
+        res.inst(sample={"method": f["path"], "lends": "&mut " + to["s"], "receiver_wraps_it_in_ManuallyDrop": wraps, "owned_values_obtainable_from": obtainable.get(to["path"])},
+                 func=f["path"])
+        if wraps and to["path"] in obtainable:
+            res.fail(f["path"], "non-owning-handle-lends-owner", "%s hands out `&mut %s` from a handle that only REFERS to a live element (it keeps the owner inside "
+                     "ManuallyDrop), while owned values of that type are obtainable (%s): `mem::swap` exchanges them in safe code - the owned handle then destroys "
+                     "the element that is still in its vector (destroyed again with the vector) and the referring handle swallows the owned one (never destroyed)"
+                     % (f["path"], to["s"], obtainable[to["path"]]), span=ctx.span_of(f["path"]))
+        else:
+            res.ok()
+    if not relocating or not inplace:
+        res.coverage_lost("<crate>", "expected destructors that relocate slots (range handles) and destructors that destroy in place (owned element pointers); "
+                          "found %d / %d" % (len(relocating), len(inplace)))
+    return res
